@@ -67,6 +67,35 @@ func checkMain(args []string) {
 		// Check must not depend on (nor change) the order in which the types were added
 		state = append([]jType{}, state...)
 		rng.Shuffle(len(state), func(i, j int) { state[i], state[j] = state[j], state[i] })
+		// whether an end is one resource or many is no matter of coherence: the flags of some cases are
+		// whatever a declaration by hand may say, each side on its own
+		if rng.Intn(3) == 0 {
+			stt.class("flags:free")
+			for i := range state {
+				rels := relMap{}
+				for k, r := range state[i].Rels {
+					r.To1, r.Fo1 = rng.Intn(2) == 0, rng.Intn(2) == 0
+					rels[k] = r
+				}
+				state[i].Rels = rels
+			}
+		}
+		// a schema among many types: a coherent chain of further types, before and after
+		if rng.Intn(5) == 0 {
+			stt.class("among-many-types")
+			n := 6 + rng.Intn(6)
+			fill := make([]jType, n)
+			for k := range fill {
+				fill[k] = jType{Name: fmt.Sprintf("fill%02d", k), Attrs: attrMap{}, Rels: relMap{}}
+			}
+			for k := 0; k+1 < n; k++ {
+				a, b := fill[k].Name, fill[k+1].Name
+				fill[k].Rels["nx"] = jRel{FT: a, FN: "nx", To1: true, TT: b, TN: "pv", Fo1: true}
+				fill[k+1].Rels["pv"] = jRel{FT: b, FN: "pv", To1: true, TT: a, TN: "nx", Fo1: true}
+			}
+			cut := rng.Intn(n + 1)
+			state = append(append(append([]jType{}, fill[:cut]...), state...), fill[cut:]...)
+		}
 		c := sCase{Fam: "check", Kind: "check", Build: build, State: state}
 		stt.class("build:" + build)
 		w.Inflight(c)
